@@ -1,5 +1,6 @@
 import CattrsModel.Tagged.Lemmas
 import CattrsModel.Tagged.Reconfigure
+import CattrsModel.Tagged.CopyHist
 /-!
 # C13 — tagged unions: tag added going out, honoured coming in, member hooks untouched
 
@@ -441,5 +442,90 @@ theorem C13_stale_cache_witness :
   constructor <;> decide
 
 end Examples
+
+/-! ## converters produced by `copy()` / `deepcopy`
+
+"After configure_tagged_union for a union U …" does not say how the converter came to be.  `Tagged/Copy.lean` models
+the union registry as a dict OBJECT (the dispatch predicate reads the attribute `_union_struct_registry` on every call,
+the factory is `__getitem__` bound once in `__init__`), `copy()` line by line, and histories of construct / copy /
+register over any number of converters.  `single0` / `base` / `fb` are what the class's `__init__` installs — arbitrary,
+except that it installs at least one handler (`base ≠ []`: `[:-skip]` with `skip = 0` would drop everything). -/
+
+/-- **C13_copy_any_history.**  After ANY history of constructing converters, copying them (copies of copies included),
+registering union structure hooks (`configure_tagged_union`'s structure side) and predicate hooks (its unstructure
+side) on any of them, in any order: every converter's factory is bound to the dict its attribute denotes, so asking it
+for the hook of ANY type never raises `KeyError` and gives exactly what the by-value dispatch model `Disp` — the one all
+C13 theorems above are about — gives for its current registrations. -/
+theorem C13_copy_any_history {T H : Type} [DecidableEq T] (single0 : T → Option H) (base : List (Tagged.Handler T H))
+    (hbase : base ≠ []) (fb : T → H) (ops : List (KOp T H)) :
+    ∀ c ∈ (kRun single0 base fb KStore.empty ops).convs,
+      Built single0 base (kRun single0 base fb KStore.empty ops).heap c ∧
+      ∀ t, c.resolve (kRun single0 base fb KStore.empty ops).heap t
+           = .hook ((c.view (kRun single0 base fb KStore.empty ops).heap).resolve t) := by
+  intro c hc
+  have b := kRun_ok hbase fb ops (storeOK_empty single0 base) c hc
+  exact ⟨b, fun t => resolve_of_bound c _ b.bound t⟩
+
+/-- **C13_copy_inherits.**  A copy of a converter constructed by this class (by `__init__` or `copy()`, whatever was
+registered on it since — in particular a tagged union configured on it) returns for EVERY type the hook its source
+returns, is again such a converter (so the statement iterates: copies of copies), and making it does not change what the
+source returns. -/
+theorem C13_copy_inherits {T H : Type} [DecidableEq T] {single0 : T → Option H} {base : List (Tagged.Handler T H)}
+    (hbase : base ≠ []) {h : DHeap T H} {c : KConv T H} (b : Built single0 base h c) :
+    Built single0 base (kCopy h c single0 base).1 (kCopy h c single0 base).2 ∧
+    ∀ t, (kCopy h c single0 base).2.resolve (kCopy h c single0 base).1 t = c.resolve h t ∧
+         c.resolve (kCopy h c single0 base).1 t = c.resolve h t :=
+  ⟨(kCopy_spec hbase b).1, fun t => kCopy_resolve hbase b t⟩
+
+/-- **C13_copy_then_configure.**  Configuring a union on a converter `r` that is a copy (any `Built` converter) is
+`registerUnionSt` on its by-value reading — hence `C13_reconfigure_*`, `C13_members_untouched`, `C13_other_union_untouched`
+hold for it verbatim — and every other converter `c` (its source, its own copies: anything with another dict) returns what
+it returned before. -/
+theorem C13_copy_then_configure {T H : Type} [DecidableEq T] {single0 : T → Option H} {base : List (Tagged.Handler T H)}
+    {h : DHeap T H} {r : KConv T H} (br : Built single0 base h r) (U : T) (f : H) :
+    (∀ t, r.resolve (kRegSt h r U f) t = .hook (((r.view h).registerUnionSt U f).resolve t)) ∧
+    (∀ c : KConv T H, c.attr ≠ r.attr → c.bound ≠ r.attr → ∀ t, c.resolve (kRegSt h r U f) t = c.resolve h t) := by
+  constructor
+  · intro t
+    rw [resolve_of_bound r _ br.bound, view_kRegSt]
+  · intro c ha hb t
+    exact resolve_frame c _ _ (kRegSt_frame h r U f _ ha) (kRegSt_frame h r U f _ hb) t
+
+section CopyExamples
+
+/-- a class whose `__init__` installs the union entry and one more handler; union `7` configured with "tagged" -/
+def c13CopyBase : List (Tagged.Handler Nat String) := [.unionRegistry, .pred (fun t => t == 1) (fun _ => "attrs-hook")]
+
+def c13CopyOps : List (KOp Nat String) := [.new, .regSt 0 7 "tagged", .copy 0, .copy 1, .regSt 2 8 "late"]
+
+def c13CopyStore (cp : DHeap Nat String → KConv Nat String → (Nat → Option String) → List (Tagged.Handler Nat String) →
+    DHeap Nat String × KConv Nat String) : KStore Nat String :=
+  kRunWith cp (fun _ => Option.none) c13CopyBase (fun _ => "fallback") KStore.empty c13CopyOps
+
+def c13CopyAsk (σ : KStore Nat String) (i t : Nat) : Option (Res String) := (σ.convs[i]?).map (fun c => c.resolve σ.heap t)
+
+/-- non-vacuity of `C13_copy_any_history` / `C13_copy_inherits`: configure, copy, copy the copy, configure another union
+on the last one — both copies return "tagged" for union 7, the late registration is seen by the converter it was made
+on only -/
+example : c13CopyAsk (c13CopyStore kCopy) 1 7 = some (.hook "tagged") ∧ c13CopyAsk (c13CopyStore kCopy) 2 7 = some (.hook "tagged") ∧
+    c13CopyAsk (c13CopyStore kCopy) 2 8 = some (.hook "late") ∧ c13CopyAsk (c13CopyStore kCopy) 1 8 = some (.hook "fallback") ∧
+    c13CopyAsk (c13CopyStore kCopy) 0 8 = some (.hook "fallback") := by
+  refine ⟨?_, ?_, ?_, ?_, ?_⟩ <;> decide
+
+example : ∀ c ∈ (c13CopyStore kCopy).convs, ∀ t, c.resolve (c13CopyStore kCopy).heap t
+    = .hook ((c.view (c13CopyStore kCopy).heap).resolve t) :=
+  fun c hc => (C13_copy_any_history (fun _ => Option.none) c13CopyBase (by simp [c13CopyBase]) (fun _ => "fallback")
+    c13CopyOps c hc).2
+
+/-- **C13_copy_rebind_witness** (negative witness; seeded change "give the copy its own dict by assignment":
+`res._union_struct_registry = self._union_struct_registry.copy()`).  On every converter produced by such a copy the
+predicate finds the union in the new dict and the factory, still bound to the dict made in `__init__`, raises `KeyError` —
+for the inherited union as well as for one configured on the copy later; the source keeps working. -/
+theorem C13_copy_rebind_witness :
+    c13CopyAsk (c13CopyStore kCopyRebind) 1 7 = some .keyError ∧ c13CopyAsk (c13CopyStore kCopyRebind) 2 7 = some .keyError ∧
+    c13CopyAsk (c13CopyStore kCopyRebind) 2 8 = some .keyError ∧ c13CopyAsk (c13CopyStore kCopyRebind) 0 7 = some (.hook "tagged") := by
+  refine ⟨?_, ?_, ?_, ?_⟩ <;> decide
+
+end CopyExamples
 
 end CattrsModel
